@@ -277,6 +277,18 @@ func init() {
 	builtinModels["(time.Duration).Milliseconds"] = func(s *Session, fr *Frame, fn *ssa.Function, args []Val, st *State) Val {
 		return scalar(types.Typ[types.Int64], s.truncDiv(args[0].T0(), I(1000000), types.Typ[types.Int64]))
 	}
+	// error wrappers: nil iff the wrapped error is nil
+	for _, pkg := range []string{"github.com/pingcap/errors", "github.com/pkg/errors"} {
+		for _, fnn := range []string{"WithStack", "Trace", "AddStack", "Annotate", "Annotatef", "WithMessage", "Wrap", "Wrapf"} {
+			name := pkg + "." + fnn
+			builtinModels[name] = func(s *Session, fr *Frame, fn *ssa.Function, args []Val, st *State) Val {
+				r := s.uf("errwrap:"+name, SInt, args[0].T0())
+				s.assume(Ge(r, I(0)))
+				s.assume(Eq(Eq(r, I(0)), Eq(args[0].T0(), I(0))))
+				return scalar(fn.Signature.Results().At(0).Type(), r)
+			}
+		}
+	}
 	// strconv round trip
 	builtinModels["strconv.FormatUint"] = func(s *Session, fr *Frame, fn *ssa.Function, args []Val, st *State) Val {
 		r := s.uf("fmtuint", SInt, args[0].T0(), args[1].T0())
